@@ -1740,7 +1740,8 @@ def run_case(spec):
     from eliot import _validation
     # 'twologgers': every third case has LINE events in _validation.py too (the nested logging multiplies the events per schedule)
     both = spec["part"] in ("memory", "memory2p", "loggersched", "lockorder") or (spec["part"] == "twologgers" and spec["i"] % 3 == 0)
-    n = sched.instrument([_output, _validation] if both else [_output])
+    # (thorough tier: switch points also between a call instruction and the use of its result, inside a line)
+    n = sched.instrument([_output, _validation] if both else [_output], post_call=(spec.get("tier") == "thorough"))
     res["counters"]["code_objects_instrumented"] = n
     if spec["part"] == "memory2p":
         run_memory2p(spec, res)
